@@ -2,9 +2,12 @@ package main
 
 import (
 	"fmt"
+	"io"
 	"sort"
 	"strconv"
 	"strings"
+
+	"github.com/IBM/sarama"
 
 	"github.com/linkedin/Burrow/core/protocol"
 	"github.com/linkedin/Burrow/core/verifhook"
@@ -133,7 +136,7 @@ func genCluster(g *gen) {
 			}
 			// the Kafka error code partitions in `pe` are answered with (any non-zero code is an error)
 			pec := g.pick(6, 6, 3, 5, 9, 7, 1, 56, 78, 74, -1)
-			g.emit("K cycle tick=%d meta=%s terr=%d perr=%s lq=%s bf=%s pe=%s off=%d pec=%d", tick, meta, terr, perr, lq, bf, pe, 1+c, pec)
+			g.emit("K cycle tick=%d meta=%s terr=%d perr=%s lq=%s bf=%s pe=%s off=%d pec=%d ek=%d", tick, meta, terr, perr, lq, bf, pe, 1+c, pec, g.intn(5))
 		}
 	}
 }
@@ -143,6 +146,7 @@ type clEnv struct {
 	parts   map[string][]clPart
 	terr    bool
 	perr    string
+	ek      string // kind of error the scripted failures of this cycle return
 	pec     int16
 	lq      map[string]int // "t.p" -> leader or -1
 	bf      map[int]bool
@@ -185,6 +189,7 @@ func parseClEnv(kv map[string]string) *clEnv {
 	}
 	e.terr = kv["terr"] == "1"
 	e.perr = kv["perr"]
+	e.ek = kv["ek"]
 	if kv["lq"] != "-" {
 		for _, x := range strings.Split(kv["lq"], ",") {
 			f := strings.Split(x, ":")
@@ -242,6 +247,19 @@ func runCluster(r *runner) {
 	var env *clEnv
 	fake := &verifhook.FakeKafka{}
 	fake.TopicsFn = func() ([]string, bool) {
+		// whatever the error is, a failed call aborts the refresh (the model does not look at the kind)
+		switch env.ek {
+		case "1":
+			fake.FaultErr = sarama.ErrUnknownTopicOrPartition
+		case "2":
+			fake.FaultErr = sarama.ErrLeaderNotAvailable
+		case "3":
+			fake.FaultErr = io.ErrUnexpectedEOF
+		case "4":
+			fake.FaultErr = sarama.ErrOutOfBrokers
+		default:
+			fake.FaultErr = nil
+		}
 		if env.terr {
 			return nil, false
 		}
